@@ -76,6 +76,7 @@ def parse_cw(line):
     d["wlog"] = f.get("wlog")
     d["finops"] = int(f["finops"]) if f.get("finops", "-").isdigit() else None
     d["logmark"] = int(f["logmark"]) if f.get("logmark", "-").isdigit() else None
+    d["callops"] = [int(x) for x in f.get("callops", "").split(",") if x]
     d["xml"] = f.get("xml", "")
     d["dev"] = bytes.fromhex(f["dev"]) if "dev" in f else None
     d["log"] = None
@@ -108,6 +109,21 @@ def raw_eq(impl_raw, model_raw):
 
 def is_fail_tok(t):
     return t == "P" or t == "dropP" or t.startswith("e") or t.startswith("new:")
+
+
+def call_of_token(prog, fi):
+    """index of the library call (0 = new, 1.. = items, last = finalize) that produced result token number fi,
+    all tokens before it being successes"""
+    pos, call = 1, 0
+    if fi == 0:
+        return 0
+    for it in prog["items"]:
+        call += 1
+        ntok = 2 if it[0] in ("I", "ID") and it[3] is not None else 1
+        if fi < pos + ntok:
+            return call
+        pos += ntok
+    return call + 1
 
 
 def blob_ops(outs):
@@ -210,7 +226,7 @@ def seg_failed(s):
     if s.startswith("it "):
         return s.startswith("it new:") or " end=e" in s or " end=P" in s
     if s.startswith("bl "):
-        return not s.startswith("bl ok n=")
+        return s.startswith("bl e") or s == "bl P"
     return False
 
 
